@@ -246,10 +246,16 @@ function prependPath(parentPath: string[], err: DecodeError): DecodeError {
   return { ...err, path: [...parentPath, ...err.path] };
 }
 
+// JSON.stringify throws on bigint, and rejected values can contain one anywhere
+function safeStringify(value: unknown): string {
+  const out = JSON.stringify(value, (_key, v) => (typeof v === "bigint" ? `${v}n` : v));
+  return out === undefined ? String(value) : out;
+}
+
 function deduplicateErrors(errors: DecodeError[]): DecodeError[] {
   const seen = new Set<string>();
   return errors.filter((err) => {
-    const key = JSON.stringify(err);
+    const key = safeStringify(err);
     if (seen.has(key)) return false;
     seen.add(key);
     return true;
@@ -1636,12 +1642,12 @@ export class MapRuntype extends BaseRuntype {
     }
     let acc: DecodeError[] = [];
     for (const [k, v] of input) {
-      pushPath(ctx, `key(${JSON.stringify(k)})`);
+      pushPath(ctx, `key(${safeStringify(k)})`);
       if (!this.keyParser.validate(ctx, k)) {
         acc = acc.concat(this.keyParser.reportDecodeError(ctx, k));
       }
       popPath(ctx);
-      pushPath(ctx, `value(${JSON.stringify(k)})`);
+      pushPath(ctx, `value(${safeStringify(k)})`);
       if (!this.valueParser.validate(ctx, v)) {
         acc = acc.concat(this.valueParser.reportDecodeError(ctx, v));
       }
@@ -1698,7 +1704,7 @@ export class SetRuntype extends BaseRuntype {
     }
     let acc: DecodeError[] = [];
     for (const v of input) {
-      pushPath(ctx, `item(${JSON.stringify(v)})`);
+      pushPath(ctx, `item(${safeStringify(v)})`);
       if (!this.itemParser.validate(ctx, v)) {
         acc = acc.concat(this.itemParser.reportDecodeError(ctx, v));
       }
